@@ -26,6 +26,8 @@ QUICK = [('Scope_steps_q.cfg', 'step ids: <=2 jobs x <=2 steps, ids none/a/expre
          ('Scope_needs_q.cfg', 'needs: 3 jobs, every needs graph without self loops; jobs.* at workflow_call outputs'),
          ('Scope_needs2.cfg', 'needs: <=2 jobs normal/reusable-workflow call, dangling needs'),
          ('Scope_matrix_q.cfg', 'matrix: rows x include (<=1 element) x exclude, second job with literal rows'),
+         ('Scope_matrix_nested.cfg', 'matrix members: matrix.a.<member> with row a literal objects / with an expression element / whole-row '
+                                     'expression x include elements assigning an object literal to a'),
          ('Scope_inputs.cfg', 'inputs/secrets: workflow_call x workflow_dispatch inputs, secrets absent/empty/declared'),
          ('Scope_jobsites.cfg', 'job-level sites: values inside strategy.matrix, runs-on, container, services, concurrency, '
                                 'timeout-minutes, continue-on-error, with/secrets of a call job; <=2 jobs normal/call with matrix')]
@@ -36,8 +38,9 @@ THOROUGH = [('Scope_steps_t.cfg', 'step ids: <=2 jobs x <=3 steps, ids none/a/ex
             ('Scope_needs_t.cfg', 'needs: 3 jobs normal/call, every needs graph x declared outputs'),
             ('Scope_needs2.cfg', QUICK[3][1]),
             ('Scope_matrix_t.cfg', 'matrix: rows x include (<=2 elements) x exclude, second job with literal rows'),
-            ('Scope_inputs.cfg', QUICK[5][1]),
-            ('Scope_jobsites.cfg', QUICK[6][1])]
+            ('Scope_matrix_nested.cfg', QUICK[5][1]),
+            ('Scope_inputs.cfg', QUICK[6][1]),
+            ('Scope_jobsites.cfg', QUICK[7][1])]
 
 
 def read_vectors(path):
